@@ -4,12 +4,12 @@ go 1.23
 
 require (
 	github.com/nlnwa/whatwg-url v0.0.0
+	golang.org/x/text v0.21.0
 )
 
 require (
 	github.com/bits-and-blooms/bitset v1.20.0 // indirect
 	golang.org/x/net v0.34.0 // indirect
-	golang.org/x/text v0.21.0 // indirect
 )
 
 replace github.com/nlnwa/whatwg-url => /repo
